@@ -929,6 +929,24 @@ def reconfigured_workload(rng):
                 peer_spec=dict(kind='silent', names=['silent'], table=[('silent', 0.0)]))
 
 
+def zero_timeout_workload(rng):
+    """sent_request_timeout configured as exactly 0 (a legal limit: "do not wait at all"), on the
+    class or on the instance, a peer that never answers: every call - single requests and batches -
+    ends with TaskTimeout at the instant its request was written"""
+    cfg = dict(timeout=0.0, trt=3.0, recal=30)
+    n = rng.randint(1, 5)
+    callers = [dict(id=i, start=i * rng.choice([0.0625, 1.0]), kind='single' if i % 3 != 1 else 'batch',
+                    items=[True, True]) for i in range(n)]
+    for c in callers:
+        if c['kind'] == 'single':
+            c.pop('items', None)
+    wl = dict(cfg=cfg, callers=callers,
+              peer_spec=dict(kind='silent', names=['silent'], table=[('silent', 0.0)]))
+    if rng.random() < 0.5:
+        wl['configure'] = 'instance'
+    return wl
+
+
 def loss_while_queued_workload(rng):
     """more callers than the limit, a peer that does not answer, the connection is lost while the
     excess is still queued for a slot: everybody - awaiting a response or queued - is cancelled"""
@@ -1078,11 +1096,12 @@ def run(ctx):
     for gen, name in ((lower_then_raise_workload, 'lower_then_raise'), (blocked_cancel_workload, 'blocked_cancel'),
                       (blocked_partial_cancel_workload, 'blocked_partial_cancel'),
                       (loss_while_queued_workload, 'loss_while_queued'),
-                      (partial_timeout_workload, 'partial_timeout'), (reconfigured_workload, 'reconfigured')):
+                      (partial_timeout_workload, 'partial_timeout'), (reconfigured_workload, 'reconfigured'),
+                      (zero_timeout_workload, 'zero_timeout')):
         evaluate_workloads(ctx, res, [gen(rng) for _ in range(ntg)], name)
     res['scopes']['targeted_workloads'] = {'lower_then_raise': ntg, 'blocked_cancel': ntg,
                                            'blocked_partial_cancel': ntg, 'loss_while_queued': ntg,
-                                           'partial_timeout': ntg, 'reconfigured': ntg}
+                                           'partial_timeout': ntg, 'reconfigured': ntg, 'zero_timeout': ntg}
     # (c) exhaustive recalibration grid
     full = ctx.tier == 'thorough'
     cases = list(recalc_cases(full and not _failed(res, known)))
